@@ -16,6 +16,7 @@ def run(ctx, rep):
     for q in ("context:Context._to_python", "context:Context._to_js"):
         g = next((f for f in ctx.tree.funcs if f.qual == q), None)
         if g is not None:
+            used |= set(getattr(g.node, "_inlined_cms", set()))  # context managers read as the statements they stand for
             for w in g.own_nodes():
                 if isinstance(w, _ast.With):
                     for it in w.items:
@@ -26,4 +27,5 @@ def run(ctx, rep):
     pairing.rule_contextmanager_cleanup(ctx, rep, "C11-R6", where=lambda f: f.name in used, what=" used by the boundary converters")
     recursion.rule_path_entries_released(ctx, rep, "C11-R8", lambda q: q in ("context:Context._to_python", "context:Context._to_js"))
     recursion.rule_persistent_path_balanced(ctx, rep, "C11-R9")
+    objmodel.rule_converters_use_object_model(ctx, rep, "C11-R10")
     rep.undecided += ["get(set(v)) == v for all value shapes (round-trip equality is a runtime property)"]
